@@ -48,7 +48,7 @@ add("C09", "Differential re-run oracle over Hypothesis-generated training histor
     "and actions sent to the environment must be bit-identical. Eight routines are additionally run in two fresh interpreters with "
     "different PYTHONHASHSEED. A third run with seed+1 must differ (non-vacuity).",
     "Exploration with small counts (runs cost seconds): 2 generated cases per routine in the quick tier. Thread-scheduling dependence "
-    "inside XLA is out of reach (single-threaded XLA in the checks). Multi-task schedulers are exercised through their backbones only.",
+    "inside XLA is out of reach (single-threaded XLA in the checks). The three multi-task schedulers run with DDPG/TD3/SAC backbones (SMT cases constructed so the training pool is refilled while tasks tie).",
     "DESIGN.md §5 C09")
 add("C11", "Hypothesis-generated budgets / episode scripts / continuation calls on step-capped recording environments vs a history-invariant oracle; float64 reference model for the bandit selectors",
     "Generated (routine, script, budget incl. 0 and 1, start step, episode limit, warm-up) histories for every training routine, the rollout "
